@@ -418,10 +418,15 @@ def main(check_id, tier, replay=None, only=None):
     tasks = []
     default_budget = 150.0 if tier == "quick" else 1500.0
     budget_s = float(os.environ.get("VERIF_BUDGET_S", default_budget))
+    # use idle cores: when a property's quick tier has fewer shards than workers, every generated sub-check gets more shards (more cases, same wall time)
+    planned = sum(s.shards[tier] for s in mod.SUBCHECKS if s.name in per_sub)
+    boost = max(1, min(4, MAX_WORKERS // max(planned, 1))) if tier == "quick" else 1
     for k, s in enumerate(mod.SUBCHECKS):
         if s.name not in per_sub:
             continue
         nshards = s.shards[tier]
+        if s.enumerate is None and s.custom is None:
+            nshards *= boost
         if s.enumerate is not None:
             nshards = MAX_WORKERS if tier == "thorough" else min(MAX_WORKERS, max(1, s.shards[tier]))
         for j in range(nshards):
